@@ -55,3 +55,75 @@ pub fn __integer_decode(n: MF64) -> (r: (u64, i16, i8))
 pub fn __i16_cmp(a: i16, b: i16) -> (r: core::cmp::Ordering)
     ensures r == (if a < b { core::cmp::Ordering::Less } else if a == b { core::cmp::Ordering::Equal } else { core::cmp::Ordering::Greater })
 { unimplemented!() }
+
+// ---- float tails of to_f64 / to_f32 (rule R56): the IEEE operations are named by uninterpreted functions, so a contract
+// can say WHICH float is returned (cast of the 64-bit round-to-odd mantissa, times an exact power of two) without
+// interpreting the rounding itself.
+pub uninterp spec fn fcast64(m: u64) -> MF64;
+pub uninterp spec fn fpow2_64(e: i32) -> MF64;
+pub uninterp spec fn fmul64(a: MF64, b: MF64) -> MF64;
+pub uninterp spec fn finf64() -> MF64;
+pub uninterp spec fn fneg64(a: MF64) -> MF64;
+impl MF64 {
+    //@ assume f64::mul : IEEE multiplication (named, not interpreted)
+    #[verifier::external_body]
+    pub fn mul(self, other: MF64) -> (r: MF64)
+        ensures r == fmul64(self, other)
+    { unimplemented!() }
+    //@ assume f64::neg(named) : IEEE negation (named, not interpreted)
+    #[verifier::external_body]
+    pub fn negf(self) -> (r: MF64)
+        ensures r == fneg64(self)
+    { unimplemented!() }
+}
+//@ assume u64_as_f64 : `m as f64`: IEEE round-to-nearest-even conversion (named, not interpreted)
+#[verifier::external_body]
+pub fn __u64_as_f64(m: u64) -> (r: MF64)
+    ensures r == fcast64(m)
+{ unimplemented!() }
+//@ assume f64::powi(2.0) : `2.0f64.powi(e)`: the power of two (named, not interpreted)
+#[verifier::external_body]
+pub fn __f64_pow2(e: i32) -> (r: MF64)
+    ensures r == fpow2_64(e)
+{ unimplemented!() }
+//@ assume f64::INFINITY : the constant
+#[verifier::external_body]
+pub fn __f64_infinity() -> (r: MF64)
+    ensures r == finf64()
+{ unimplemented!() }
+//@ assume MF32 : model type of an f32 value (opaque)
+#[verifier::external_body]
+#[derive(Clone, Copy)]
+pub struct MF32 { _b: u32 }
+pub uninterp spec fn fcast32(m: u64) -> MF32;
+pub uninterp spec fn fpow2_32(e: i32) -> MF32;
+pub uninterp spec fn fmul32(a: MF32, b: MF32) -> MF32;
+pub uninterp spec fn finf32() -> MF32;
+pub uninterp spec fn fneg32(a: MF32) -> MF32;
+impl MF32 {
+    //@ assume f32::mul : IEEE multiplication (named, not interpreted)
+    #[verifier::external_body]
+    pub fn mul(self, other: MF32) -> (r: MF32)
+        ensures r == fmul32(self, other)
+    { unimplemented!() }
+    //@ assume f32::neg(named) : IEEE negation (named, not interpreted)
+    #[verifier::external_body]
+    pub fn negf(self) -> (r: MF32)
+        ensures r == fneg32(self)
+    { unimplemented!() }
+}
+//@ assume u64_as_f32 : `m as f32`: IEEE round-to-nearest-even conversion (named, not interpreted)
+#[verifier::external_body]
+pub fn __u64_as_f32(m: u64) -> (r: MF32)
+    ensures r == fcast32(m)
+{ unimplemented!() }
+//@ assume f32::powi(2.0) : `2.0f32.powi(e)`: the power of two (named, not interpreted)
+#[verifier::external_body]
+pub fn __f32_pow2(e: i32) -> (r: MF32)
+    ensures r == fpow2_32(e)
+{ unimplemented!() }
+//@ assume f32::INFINITY : the constant
+#[verifier::external_body]
+pub fn __f32_infinity() -> (r: MF32)
+    ensures r == finf32()
+{ unimplemented!() }
